@@ -62,7 +62,7 @@ def run_tlc(module: str, cfg: str | None, scratch: Path, env: dict | None = None
         cfg_path.write_text("")
     else:
         cfg_path = Path(cfg) if os.path.isabs(cfg) else SPEC / cfg
-    libs = [str(SPEC)] + [str(p) for p in (libdirs or [])] + [str(scratch)]
+    libs = [str(p) for p in (libdirs or [])] + [str(scratch), str(SPEC)]
     cmd = ["java", "-XX:+UseParallelGC", "-Xss16m", f"-DTLA-Library={os.pathsep.join(libs)}"]
     cmd += (jvm or [])
     cmd += ["-cp", JAR, "tlc2.TLC", "-metadir", str(meta), "-noGenerateSpecTE",
